@@ -6,7 +6,7 @@
 From Coq Require Import List String NArith Bool.
 Import ListNotations.
 From GMQ Require Import Base.Bytes Codec.Desc Codec.Prim Codec.Value Codec.MethodCodec Codec.Header Codec.Frame Codec.Records
-     Codec.SpecCheck Codec.Codec.
+     Codec.SpecCheck Codec.Grammar Codec.Codec.
 From GMQ Require Import Codec.gen.MethodsGen Codec.gen.TagsGen Codec.gen.ConstGen Codec.gen.SpecGen.
 From GMQ Require Import Proofs.CodecPrimProofs Proofs.CodecValueProofs Proofs.CodecMethodProofs Proofs.CodecRecordProofs Proofs.CodecGenProofs.
 Open Scope N_scope.
@@ -46,6 +46,14 @@ Print Assumptions C12_table_roundtrip.
 Theorem C12_tag_tables_inverse : tags_ok rd_gen wr_gen D091 = true /\ tags_ok rd_gen wr_gen DRabbit = true.
 Proof. exact gen_tags_inverse. Qed.
 Print Assumptions C12_tag_tables_inverse.
+
+(* tag letters and layouts of both dialects are those of the specifications: every tag the reader accepts and
+   every tag the writer emits is a grammar tag with the grammar's layout, and every grammar tag is accepted *)
+Theorem C12_tag_tables_match_grammar :
+  tags_match_grammar reader_091 writer_091 grammar_091 = true /\
+  tags_match_grammar reader_rabbit writer_rabbit grammar_rabbit = true.
+Proof. exact gen_tags_match_grammar. Qed.
+Print Assumptions C12_tag_tables_match_grammar.
 
 (* ---- methods: generic law + obligation over the generated descriptions ---- *)
 Theorem C12_method_roundtrip_generic : forall st rd wr d m vals,
@@ -130,7 +138,7 @@ Print Assumptions C12_encode_is_grammar.
 Example C12_example_nested_table :
   let t := [([107], VTab TTablePtr [([120], VNum TInt32 1); ([121], VArr [VStr TString [97; 98]; VNil])]); ([122], VNum TBool 1)] in
   wf_table rd_gen wr_gen DRabbit t = true /\ wf_table rd_gen wr_gen D091 t = true /\
-  encode_table DRabbit t = Some [0; 0; 0; 33; 1; 107; 70; 0; 0; 0; 22; 1; 120; 73; 0; 0; 0; 1; 1; 121; 120; 0; 0; 0; 8; 83; 0; 0; 0; 2; 97; 98; 86; 1; 122; 116; 1].
+  encode_table DRabbit t = Some [0; 0; 0; 33; 1; 107; 70; 0; 0; 0; 22; 1; 120; 73; 0; 0; 0; 1; 1; 121; 65; 0; 0; 0; 8; 83; 0; 0; 0; 2; 97; 98; 86; 1; 122; 116; 1].
 Proof. vm_compute. repeat split; reflexivity. Qed.
 
 Example C12_example_header_and_message :
